@@ -107,7 +107,7 @@ def specEventsFrom (S F : List Int) (t : List Int) : Nat â†’ Nat â†’ List (Nat Ã
 
 def specEvents (S F : List Int) (t : List Int) : List (Nat Ã— Nat) := specEventsFrom S F t (t.length + 1) 0
 
-/-- grouping of (path, time) tuples into the dictionary, as an association list in first-occurrence order -/
+/-- grouping of (path, time) tuples into the dictionary, as an association list (keys duplicate-free; key order is NOT the insertion order of a Python dict and is never compared) -/
 def groupPaths : List (List Int Ã— Nat) â†’ List (List Int Ã— List Nat)
   | [] => []
   | (p, d) :: rest =>
